@@ -59,7 +59,10 @@ static const char *NAMES_C[] = { "iat", "nbf", "exp", "iss", "sub", "n", "data" 
 static const char *STRV[] = { "JWT", "none", "HS256", "at+jwt", "", "\xc3\xa9", "value",
 	"ES256K", "ES256", "ES384", "ES512", "RS256", "PS256", "EdDSA", "HS384", "HS512", "HS256x", "HS2560", "hs256", "ES25", "ES", "RS2566", "PS256 ", "EdDSAx", "ES256KK" };
 #define NSTRV 25
-static const char *JSONV[] = { "{\"a\":1}", "[1,2]", "{}", "[\"HS256\"]", "{\"alg\":\"none\"}" };
+static const char *JSONV[] = { "{\"a\":1}", "[1,2]", "{}", "[\"HS256\"]", "{\"alg\":\"none\"}",
+	/* reals that need all 17 significant digits, integers beyond 2^53, exponents */
+	"{\"r\":0.30000000000000004,\"t\":0.1}", "[9007199254740993,9007199254740992.0,1e15,1000000000000000.5]", "{\"pi\":3.141592653589793,\"third\":0.3333333333333333,\"tiny\":5e-324,\"big\":1.7976931348623157e308}" };
+#define NJSONV 8
 static const long INTV[] = { 0, 1, -1, 1700000000L, INT64_MAX, INT64_MIN, 256 };
 
 static void put_value_text(int type, const char *sval, long ival)
@@ -91,7 +94,7 @@ static void pick_value(int *type, const char **sval, long *ival)
 	switch (*type) {
 	case JWT_VALUE_INT: *ival = INTV[vh_below(&rng, 7)]; break;
 	case JWT_VALUE_BOOL: *ival = (long)vh_below(&rng, 2); break;
-	case JWT_VALUE_JSON: *sval = JSONV[vh_below(&rng, 5)]; break;
+	case JWT_VALUE_JSON: *sval = JSONV[vh_below(&rng, NJSONV)]; break;
 	default: *sval = STRV[vh_below(&rng, 2) ? vh_below(&rng, 7) : vh_below(&rng, NSTRV)]; break;
 	}
 }
@@ -188,8 +191,8 @@ static void op_setcb(long h, jwt_builder_t *b)
 }
 static void op_generate(long h, jwt_builder_t *b, const jwk_item_t *curkey_unused)
 {
-	static const int64_t NOWS[] = { 0, 1, 2147483648LL, 1700000000LL, 1099511627776LL };
-	int64_t now = vh_below(&rng, 6) == 5 ? (int64_t)vh_below(&rng, 1ULL << 41) : NOWS[vh_below(&rng, 5)];
+	static const int64_t NOWS[] = { 0, 1, 2147483648LL, 1700000000LL, 1099511627776LL, -1, -2, 2147483647LL };	/* -1: also time()'s error value, still a reading */
+	int64_t now = vh_below(&rng, 9) == 8 ? (int64_t)vh_below(&rng, 1ULL << 41) : NOWS[vh_below(&rng, 8)];
 	char *tok;
 	int refvalid = -1;
 	(void)curkey_unused;
